@@ -599,6 +599,9 @@ class PlanJoinTablesQuery:
                 self.add_step_to_partition(step)
                 return step
 
+            # next step can't be partitioned: add partition to plan (close it), then add step to plan
+            self.close_partition()
+
         elif partition_size is not None:
             # create partition
 
